@@ -43,6 +43,13 @@ traversal has not reached it), the link is reported missing and its subtree skip
   so its result is its solo result whatever the interleaving.
 * `partial` for requests with distinct keys over the SHARED default store — NOT proved; the precise
   remaining statement is at the end of the file.
+* SCOPE of every theorem here: the composed model `GS.Concurrent` is hand-written and is NOT compared
+  with the code as a whole (only its components are: streams `requestor`, `loader`, `linktrack`); its
+  `run` delivers ONE response per wire message.  The real code shares one block map among all
+  responses of a wire message: `runB` / `batching_couples` / `batching_changes_run` show that this
+  coupling matters and that the theorems do not cover it.  Proved region = a request with a
+  persistence option nobody else uses (own key, own store), unbatched deliveries; the default
+  configuration (no keys) is the known finding.
 -/
 namespace GS.C20
 open GS.Loader GS.Requestor GS.LinkTrack GS.Concurrent
@@ -360,6 +367,48 @@ example :
     resultOf (Concurrent.run init exSched) 1 = ([(7, []), (3, [0])], [], 2) ∧
     resultOf (Concurrent.run init solo1) 1 = ([(7, []), (3, [0])], [], 2) := by
   refine ⟨by decide, ⟨by decide, by decide⟩, ⟨by decide, by decide⟩, by decide, by decide⟩
+
+/-! ## message batching: what the per-request FIFOs of `run` do not show
+
+`run` delivers one response per wire message.  The real requestor ingests every response of a wire
+message with the message's WHOLE block map, and the responder batches the transactions of several
+requests to one peer into one message (`runB`, `BAct.batch`).  Two evaluations of the model show what
+that coupling does; all theorems above are about `run` (no two requests' responses in one message). -/
+
+/-- the schedule of `counterexample`, except that the first messages of the two requests (block 7 with
+    bytes for request 0, block 7 "present, no bytes" for request 1) travel as ONE wire message -/
+def exSchedBatched : List BAct :=
+  [.act (.start 0), .act (.start 1), .act (.resp 0), .act (.resp 1), .batch [0, 1]] ++
+    ([Act.resp 1, .deliver 1, .resp 1, .deliver 1, .resp 0, .deliver 0, .resp 0, .deliver 0].map BAct.act)
+
+/-- **C20.batching_couples.**  With the two first messages batched, request 1 finds block 7 in the
+    message's block map and delivers everything: whether the known finding strikes depends on the
+    batching of the responder's messages, which the per-request FIFO model does not represent.  (The
+    finding is still there: `counterexample` is the same exchange with the two responses in separate
+    messages; `concur` reproduces it on the real code.) -/
+theorem batching_couples :
+    resultOf (runB (initSys [] [7, 3] [exLT, exLT] [none, none]) exSchedBatched) 1 = ([(7, []), (3, [0])], [], 2) ∧
+    resultOf exRun 1 = ([], [(7, [])], 0) := by
+  refine ⟨by decide, by decide⟩
+
+/-- root 7 with the same child 3 under two links: the second occurrence travels without bytes -/
+def dupLT : LT := [⟨7, [], 0, 1, 0⟩, ⟨3, [0], 1, 1, 0⟩, ⟨3, [1], 1, 1, 0⟩]
+
+/-- **C20.batching_changes_run.**  Two requests with persistence options (own keys, own stores: the
+    hypotheses of `partial_own_scope`).  Unbatched, request 1 takes the second occurrence of block 3
+    from its own store; when that response (no bytes) shares a wire message with a response of request
+    0 that carries block 3, request 1 ingests the bytes again and writes them again: same RESULT, but
+    not the same run — `partial_own_scope` (equality of the whole run) does not extend to batched
+    deliveries as it stands. -/
+theorem batching_changes_run :
+    let init := initSys [] [7, 3] [dupLT, dupLT] [some 1, some 2] [some [], some []]
+    let pre : List BAct := [Act.start 0, .start 1, .resp 1, .deliver 1, .resp 1, .deliver 1, .resp 0, .resp 0, .resp 1,
+      .deliver 0].map BAct.act
+    let plain := runB init (pre ++ [.act (.deliver 0), .act (.deliver 1)])
+    let batched := runB init (pre ++ [.batch [0, 1]])
+    resultOf plain 1 = resultOf batched 1 ∧
+    storeOf plain 1 = [(3, 3), (7, 7)] ∧ storeOf batched 1 = [(3, 3), (3, 3), (7, 7)] := by
+  refine ⟨by decide, by decide, by decide⟩
 
 /-! ## full statement (false) and the remaining case (NOT proved)
 
